@@ -157,6 +157,7 @@ class Worker:
                              'kwargs': {k: to_wire(v) for k, v in kwargs.items()}, 'compute': compute})
         if not resp['ok']:
             raise RemoteError(resp['exc'], resp.get('msg', ''))
+        self.last_shares = resp.get('shares', [])
         return from_wire(resp['ret']), [from_wire(a) for a in resp['args_after']]
 
     def script(self, name, *args):
